@@ -67,7 +67,8 @@ pub fn scenario(u: &Unit) -> String {
         ob(&format!("meta.{}", a.key), if a.key == b.key && a.value == b.value { t() } else { f() });
     }
     // the comments that were declared are the comments that are read back (not merely a fixed point of read-write-read)
-    for l in lines.iter().filter(|l| !l.comment.is_empty() && l.kind != 'D') {
+    // (auxiliary lines of multi-service systems are regenerated with a comment of their own)
+    for l in lines.iter().filter(|l| !l.comment.is_empty() && l.kind != 'D' && l.kind != 'X') {
         let want = l.comment.replace("{HASH}", "#");
         ob(&format!("declared-comment-survives:{}", want), if c2.data.iter().any(|c| c.comment() == want) { t() } else { f() });
     }
